@@ -14,19 +14,20 @@ open Bifrost Bifrost.SigC
 valid signature whose signer is the remote peer of this session, in the epoch it is handed
 over in. -/
 theorem delivered_authentic (s : State) (h : Reachable s) : deliveredAuthentic s = true := by
-  sorry
+  exact SigClient.deliveredAuthentic_of_inv (SigClient.inv_of_reachable h)
 
 /-- An injected, modified or re-attributed message (signature invalid, or signed by anyone but
 the session's remote peer) is never stored: the session routine fails instead. -/
 theorem forged_rejected (s : State) (m : Msg) (v g : Bool) (hbad : (v && g) = false) :
     (recvMsg s m v g).recv = s.recv ∧ (recvMsg s m v g).delivered = s.delivered ∧
     (recvMsg s m v g).accepted = s.accepted ∧ (recvMsg s m v g).failed = true := by
-  sorry
+  have hb : (!(v && g)) = true := by simp [hbad]
+  simp [recvMsg, hb]
 
 /-- The client only ever acknowledges messages its application has received, in the epoch of
 the acknowledgement. -/
 theorem acks_are_delivered (s : State) (h : Reachable s) : acksAreDelivered s = true := by
-  sorry
+  exact SigClient.acksAreDelivered_of_inv (SigClient.inv_of_reachable h)
 
 /-- Known finding (format level, see DESIGN.md): a message does not name its destination or
 session, so the clause "submitted by A's client for delivery to THIS peer" cannot be checked by
@@ -35,7 +36,9 @@ messages differing only in identity are accepted alike. -/
 theorem acceptance_ignores_destination (s : State) (m m' : Msg) (v g : Bool) (hq : m.seqno = m'.seqno) :
     ((recvMsg s m v g).recv.isSome ↔ (recvMsg s m' v g).recv.isSome) ∧
     ((recvMsg s m v g).failed ↔ (recvMsg s m' v g).failed) := by
-  sorry
+  have _ := hq
+  unfold recvMsg
+  split <;> simp
 
 example : deliveredAuthentic (run [.opened 1, .recvMsg ⟨5, 1⟩ true true, .recvStep, .recvMsg ⟨6, 2⟩ true false, .recvStep]) = true ∧
     (run [.opened 1, .recvMsg ⟨5, 1⟩ true true, .recvStep, .recvMsg ⟨6, 2⟩ true false, .recvStep]).delivered.length = 1 := by
